@@ -5,7 +5,7 @@
 From Coq Require Import ZArith QArith List Bool Arith Lia.
 From PV Require C12.Model.
 From PV Require Import C09.Model C09.Spec C14.Model C14.Spec C14.Proofs1 C14.Proofs2 C14.Proofs3 C14.Proofs4
-                       C14.Proofs5 C14.Proofs6.
+                       C14.Proofs5 C14.Proofs6 C14.Proofs7 C14.Proofs8.
 Import ListNotations.
 Open Scope Z_scope.
 
@@ -59,6 +59,14 @@ Theorem C14_amp_units : forall tinds cinds x (factor : Q) r y, export_with tinds
   exists samps_c, Spec_spike_amps (c_amp_in x) factor samps_c /\ Spec_template_amps (c_amp_in x) samps_c (y_camps y).
 Proof. exact amp_units_thm. Qed.
 Print Assumptions C14_amp_units.
+
+(* ... and the factor is a common factor: a conversion with unit factor f writes, entry by entry, the amplitudes of
+   the conversion with factor 1 multiplied by f (NaN stays NaN) *)
+Theorem C14_amp_factor : forall tinds cinds x (f : Q) r y1 yf,
+  export_with tinds cinds x (Some 1%Q) r = Some y1 -> export_with tinds cinds x (Some f) r = Some yf ->
+  scaled f (y_samps y1) (y_samps yf) /\ scaled f (y_tamps y1) (y_tamps yf) /\ scaled f (y_camps y1) (y_camps yf).
+Proof. exact factor_thm. Qed.
+Print Assumptions C14_amp_factor.
 
 (* clusters.depths[n] = y coordinate of the peak channel of cluster waveform n (= clusters.channels[n]), NaN for
    the ids alf.py marks (model_nan_idx, characterised by C14_nan_ids) *)
@@ -150,6 +158,14 @@ Proof.
   eexists. split; [vm_compute; reflexivity|]. vm_compute. discriminate.
 Qed.
 Print Assumptions C14_rawind_old_refuted.
+
+(* the boolean checker Corr.v evaluates on the observed channel rows (clause 22) implies the reading of
+   DESIGN.md section 8: the row starts with distinct channels of the peak channel's probe, in distance order, the
+   nearest ones, as many as fit or all of them, peak first; later columns are not judged *)
+Theorem C14_channels_checker_sound : forall pos probes nc ncw p row,
+  listed_b pos probes nc ncw p row = true -> Listed_Prefix pos probes nc ncw p row.
+Proof. exact listed_b_sound. Qed.
+Print Assumptions C14_channels_checker_sound.
 
 (* ---- non-vacuity: concrete, non-trivial instances ---- *)
 Definition qred (x : QN) : QN := match x with Some q => Some (Qred q) | None => None end.
